@@ -141,6 +141,49 @@ def bfs(parents):
     return dict(states=set(seen), transitions=transitions, violations=viol, edges=edges)
 
 
+def bfs_hist(parents, edges=False):
+    """(edges=True: the set of state CHANGES each operator has made instead of the set of states it has been in.)
+    The same search with a history-sensitive key: (visible state, for every operator the SET of states it has been in).
+    The plain BFS is exhaustive only if the object's answers depend on nothing but the visible state; this one also
+    separates histories that end in the same visible state after different pasts (an operator that failed while running
+    vs. one that failed before it started, one that has been suspended before, ...), so a hidden memo, cache or
+    'seen before' set inside the object cannot hide behind state merging."""
+    n = len(parents)
+    p, ops = build(parents)
+    p.runtime_status()
+    k0 = key_of(p, ops)
+    init = (k0, tuple(frozenset() if edges else frozenset([s]) for s in k0[0]))
+    seen = {init: []}
+    frontier = collections.deque([init])
+    transitions = 0
+    viol = []
+    while frontier:
+        k = frontier.popleft()
+        hist = seen[k]
+        for i in range(n):
+            for t in STATES:
+                p, ops = replay_history(parents, hist)
+                if key_of(p, ops) != k[0]:
+                    viol.append(Violation("F0-bfs", "replay-divergence", f"{hist} gave {key_of(p, ops)} not {k[0]}", dict(parents=parents), hist, family="F0"))
+                    continue
+                acc, probs = apply_request(p, ops, parents, i, t)
+                transitions += 1
+                for kind, d in probs:
+                    viol.append(Violation("lifecycle", kind, d, dict(parents=parents), hist + [(i, t)], family="F0"))
+                if probs:
+                    continue   # do not search on from a state the object should not be in
+                nv = key_of(p, ops)
+                if edges:
+                    visited = tuple((v | {(k[0][0][j], nv[0][j])}) if k[0][0][j] != nv[0][j] else v for j, v in enumerate(k[1]))
+                else:
+                    visited = tuple(v | {nv[0][j]} for j, v in enumerate(k[1]))
+                nk = (nv, visited)
+                if nk not in seen:
+                    seen[nk] = hist + [(i, t)]
+                    frontier.append(nk)
+    return dict(states=set(seen), transitions=transitions, violations=viol, max_history=max(len(h) for h in seen.values()))
+
+
 def grow_histories(parents, depth):
     """Request sequences interleaved with ONE 'grow' event (a new operator is added to the pipeline, as an
     incremental DAG builder would do): the operators that existed before keep their states and counts."""
